@@ -45,6 +45,99 @@ def raising_edge(cx, t, label, exc, P):
     return bool(rs) and all(n.ast.exc is not None and P.exc_name(cx.f.mod, n.ast.exc) == exc for n in rs)
 
 
+def _pattern_step_table(R, m, SP, oids):
+    """Abstract execution of one pattern-edge step of Checker._match for the 16 valuations of
+       A = the edge's tag is already bound, E = the component equals the binding, C = the edge's constraints hold on the component,
+       N = the tag is a named pattern (<= named_pattern_cnt)
+    (path-sensitive, boolean locals followed). Expected: the edge is followed iff C and (not A or E); the component is bound iff it is
+    followed, not A and N; a followed edge pushes exactly one undo record, the tag iff it was bound. Returns False when the step cannot
+    be delimited (the older, shape-based rules then decide)."""
+    from .common import explore, orient
+    pes = [n for n in m.cfg.nodes for (nm, v) in m.cfg.defs_of(n) if isinstance(v, ast.Subscript) and ast.unparse(v.value).endswith('.p_edges')] + \
+          [n for n in m.cfg.nodes if n.kind == 'for' and ast.unparse(n.ast.iter).endswith('.p_edges')]
+    if len(pes) != 1:
+        return False
+    start = pes[0]
+    pe = [nm for (nm, v) in m.cfg.defs_of(start)][0]
+    ctxn = m.f.node.args.args[2].arg
+    vals = [nm for n in m.cfg.nodes for (nm, v) in m.cfg.defs_of(n) if isinstance(v, ast.Subscript) and ast.unparse(v) .startswith(m.f.node.args.args[1].arg + '[')]
+    val = vals[0] if vals else None
+    stores = [n for n in m.cfg.nodes if n.kind == 'stmt' and isinstance(n.ast, ast.Assign) and ast.unparse(n.ast.targets[0]) == f'{ctxn}[{pe}.tag]']
+    pushes = [(n, c) for n in m.cfg.nodes for c in n.calls() if callee_attr(c) == 'append' and len(c.args) == 1 and ast.unparse(c.args[0]) in (f'{pe}.tag', '-1')]
+    heads = {n.id for n in m.cfg.nodes if n.kind == 'stmt' and n.ast is None}            # loop heads
+    if val is None or not pushes:
+        return False
+
+    def atoms(A, E, C, N):
+        def ev(e):
+            t = ast.unparse(e)
+            if isinstance(e, ast.Compare) and len(e.ops) == 1:
+                l, r = ast.unparse(e.left), ast.unparse(e.comparators[0])
+                op = e.ops[0]
+                if l == f'{pe}.tag' and r == ctxn and isinstance(op, (ast.In, ast.NotIn)):
+                    return A if isinstance(op, ast.In) else not A
+                if {l, r} == {val, f'{ctxn}[{pe}.tag]'} and isinstance(op, (ast.Eq, ast.NotEq)):
+                    if not A:
+                        return None
+                    return E if isinstance(op, ast.Eq) else not E
+                o = orient(e, lambda x: ast.unparse(x) == f'{pe}.tag')
+                if o is not None and ast.unparse(o.comparators[0]).endswith('named_pattern_cnt'):
+                    if isinstance(o.ops[0], ast.LtE):
+                        return N
+                    if isinstance(o.ops[0], ast.Gt):
+                        return not N
+                    return None
+            if isinstance(e, ast.Call) and callee_attr(e) == '_check_cons' and len(e.args) == 3 and ast.unparse(e.args[0]) == val \
+                    and ast.unparse(e.args[2]) == f'{pe}.cons_sets':
+                return C
+            if isinstance(e, ast.Call) and callee_attr(e) == 'get' and ast.unparse(e.func.value) == ctxn:
+                return None
+            return None
+        return ev
+    stop = heads | {SP.id}
+    probs = {}
+    for A in (False, True):
+        for E in ((False, True) if A else (None,)):
+            for C in (False, True):
+                for N in (False, True):
+                    reach = explore(m, atoms(A, bool(E), C, N), start=start, stop=stop)
+                    trav = SP.id in reach
+                    st = any(x.id in reach for x in stores)
+                    ptag = any(n.id in reach and ast.unparse(c.args[0]) != '-1' for (n, c) in pushes)
+                    pneg = any(n.id in reach and ast.unparse(c.args[0]) == '-1' for (n, c) in pushes)
+                    want_trav = C and ((not A) or E)
+                    want_store = want_trav and (not A) and N
+                    v = f'bound={A} equal={E} constraints={C} named={N}'
+                    if trav and not C:
+                        probs.setdefault('MPT.3', []).append(f'followed although the edge constraints do not hold ({v})')
+                    if trav and A and not E:
+                        probs.setdefault('MPT.4', []).append(f'followed although the component differs from the binding ({v})')
+                    if want_trav and not trav:
+                        probs.setdefault('MPT.3', []).append(f'not followed although the component satisfies the edge ({v})')
+                    if st and A:
+                        probs.setdefault('REL.1', []).append(f'an existing binding is overwritten ({v})')
+                    if st != want_store and not (st and A):
+                        probs.setdefault('TBL.1c', []).append(('a named pattern is not bound' if want_store else 'a temporary pattern (or a rejected component) is bound') + f' ({v})')
+                    if want_trav and trav:
+                        if want_store and st and not ptag:
+                            probs.setdefault('REL.1', []).append(f'a new binding is not recorded for undo ({v})')
+                        if not ptag and not pneg:
+                            probs.setdefault('REL.1', []).append(f'an edge is followed without pushing an undo record ({v})')
+                        if ptag and not st:
+                            probs.setdefault('REL.1', []).append(f'an undo record names a tag that was not bound by this step ({v})')
+    R.paths_examined += 12
+    for key in ('MPT.3', 'MPT.4', 'TBL.1c', 'REL.1'):
+        if key not in oids:
+            continue
+        inst = m.qual + {'MPT.3': ' :: pattern edge followed iff its constraints hold (12 valuations)', 'MPT.4': ' :: bound pattern requires an equal component (12 valuations)',
+                         'TBL.1c': ' :: named tags are bound, temporaries are not (12 valuations)', 'REL.1': ' :: bindings are made once and recorded for undo (12 valuations)'}[key]
+        if probs.get(key):
+            R.fail(oids[key], inst, m.qual, SP.ast, 'pattern-edge step: ' + probs[key][0], site(m, SP.ast))
+        else:
+            R.ok(oids[key], inst, site(m, SP.ast))
+    return True
+
+
 def match_rules(R, oids):
     """obligations on Checker._match / _check_cons shared by C11 (MPT.1-4, REL.1, LOP.1) and C12 (MPT.1).
     oids: dict rule-key -> obligation id (only the given ones are reported)"""
@@ -93,6 +186,10 @@ def match_rules(R, oids):
             R.ok(oids['MPT.2'], inst, site(m, loops[0].ast))
         else:
             R.fail(oids['MPT.2'], inst, m.qual, 'def _match', 'value edges of the node are not all examined', site(m, m.f.node))
+    # ---- one step over a pattern edge, decided for every valuation of (already bound, equal to binding, constraints hold, named tag)
+    table_done = _pattern_step_table(R, m, SP, oids)
+    if table_done:
+        oids = {k: v for k, v in oids.items() if k not in ('MPT.3', 'MPT.4', 'TBL.1c')}
     # constraint evaluation on every pattern-edge traversal
     cons_tests = []
     for t in m.cfg.nodes:
@@ -172,52 +269,57 @@ def match_rules(R, oids):
         inst = cc.qual + ' :: every constraint satisfied by some option (CNF)'
         probs = []
         if len(outer) != 1 or len(inner) != 1:
-            probs.append(('constraint sets are not evaluated as all-constraints / any-option loops', cc.f.node))
+            raise AnalysisError('_check_cons: the loop over constraints / the loop over the options of a constraint is not recognised '
+                                '(a comprehension, any()/all() or a helper is read back only when it can be expanded)')
         else:
+            from .common import explore
             O, I = outer[0], inner[0]
+            valp = cc.f.node.args.args[1].arg
+            ctxp = cc.f.node.args.args[2].arg
             trues = [r for r in returns(cc) if isinstance(r.ast.value, ast.Constant) and r.ast.value.value is True]
             falses = [r for r in returns(cc) if isinstance(r.ast.value, ast.Constant) and r.ast.value.value is False]
-            sat_true = [n for n in cc.cfg.nodes if n.kind == 'stmt' and isinstance(n.ast, ast.Assign) and ast.unparse(n.ast.targets[0]) == 'satisfied'
-                        and isinstance(n.ast.value, ast.Constant) and n.ast.value.value is True]
-            sat_false = [n for n in cc.cfg.nodes if n.kind == 'stmt' and isinstance(n.ast, ast.Assign) and ast.unparse(n.ast.targets[0]) == 'satisfied'
-                         and isinstance(n.ast.value, ast.Constant) and n.ast.value.value is False]
             if not trues or not falses or len(trues) + len(falses) != len(returns(cc)):
-                probs.append(('_check_cons does not return True/False constants', cc.f.node))
-            else:
-                if any(r.id in cc.cfg.reachable(removed_edges={(O.id, False)}) for r in trues):
-                    probs.append(('satisfaction is reported before every constraint was examined (exists instead of for-all over constraints)', trues[0].ast))
-                # an unsatisfied constraint (no option matched) must lead to return False, not to the next constraint
-                # (with the `satisfied = True` statements removed the flag is false: prune the truthy edges of its tests)
-                flag_true = {(t.id, truthy_label(t.ast, 'satisfied')) for t in cc.cfg.nodes if t.kind == 'test' and truthy_label(t.ast, 'satisfied') is not None}
-                r = reach_from_succ(cc.cfg, O, True, removed_nodes={n.id for n in sat_true} | {f.id for f in falses}, removed_edges=flag_true, follow_exc=False)
-                if O.id in r or any(t.id in r for t in trues):
-                    probs.append(('a constraint none of whose options holds does not fail the check', O.ast))
-                if not sat_false or not all(cc.cfg.dominates(O, n) for n in sat_false) or any(not cc.cfg.path_exists(O, n) for n in sat_false):
-                    probs.append(('the per-constraint flag is not reset for each constraint', O.ast))
-                # the option loop is left early only after an option held (otherwise later options are never tried)
-                brks = [n for n in cc.cfg.nodes if n.kind == 'stmt' and isinstance(n.ast, ast.Break)]
-                r_nosat = cc.cfg.reachable(removed_nodes={n.id for n in sat_true})
-                for b in brks:
-                    if b.id in r_nosat:
-                        probs.append(('the option loop can stop after an option that did not hold: the remaining options are never tried', b.ast))
-                # each `satisfied = True` is under a comparison of the component with the option
-                for n in sat_true:
-                    guards = []
-                    for t in cc.cfg.nodes:
-                        if t.kind != 'test':
-                            continue
-                        lab = eq_label(t.ast, 'value', 'op.value')
-                        if lab is None:
-                            lab = eq_label(t.ast, 'value', 'context.get(op.tag, None)')
-                        if lab is None:
-                            lab = eq_label(t.ast, 'value', 'context.get(op.tag)')
-                        if lab is None and isinstance(t.ast, ast.Call) and 'user_fns' in ast.unparse(t.ast.func) and \
-                                [ast.unparse(a) for a in t.ast.args][:1] == ['value']:
-                            lab = True
-                        if lab is not None:
-                            guards.append((t.id, lab))
-                    if not guards or n.id in cc.cfg.reachable(removed_edges=set(guards)):
-                        probs.append(('an option counts as satisfied without comparing the component', n.ast))
+                raise AnalysisError('_check_cons: does not return True/False constants')
+            if any(r.id in cc.cfg.reachable(removed_edges={(O.id, False)}) for r in trues):
+                probs.append(('satisfaction is reported before every constraint was examined (exists instead of for-all over constraints)', trues[0].ast))
+            ntests = [0]
+
+            def holds(H):
+                def ev(e):
+                    if isinstance(e, ast.Compare) and len(e.ops) == 1 and isinstance(e.ops[0], (ast.Eq, ast.NotEq)):
+                        sides = [ast.unparse(e.left), ast.unparse(e.comparators[0])]
+                        if valp in sides:
+                            other = sides[1] if sides[0] == valp else sides[0]
+                            if other.endswith('.value') or other.startswith(f'{ctxp}.get(') or other.startswith(f'{ctxp}['):
+                                ntests[0] += 1
+                                return H if isinstance(e.ops[0], ast.Eq) else not H
+                    if isinstance(e, ast.Call) and 'user_fns' in ast.unparse(e.func) and e.args and ast.unparse(e.args[0]) == valp:
+                        ntests[0] += 1
+                        return H
+                    return None
+                return ev
+            body0 = [s_ for (s_, l_) in O.succ if l_ is True]
+            ibody0 = [s_ for (s_, l_) in I.succ if l_ is True]
+            # (1) no option of the constraint holds: the check fails, before the next constraint is looked at
+            r1 = explore(cc, holds(False), start=body0[0], stop={O.id})
+            if O.id in r1 or any(t.id in r1 for t in trues) or not any(f.id in r1 for f in falses):
+                probs.append(('a constraint none of whose options holds does not fail the check', O.ast))
+            # (2) the option examined holds: the constraint is satisfied (no failure from here, the next constraint is reached)
+            r2 = explore(cc, holds(True), start=ibody0[0], stop={O.id})
+            if any(f.id in r2 for f in falses):
+                probs.append(('a constraint fails although one of its options holds', I.ast))
+            if O.id not in r2:
+                probs.append(('after a satisfied constraint the remaining constraints are not examined', I.ast))
+            # every option kind is compared with the component
+            if ntests[0] == 0:
+                raise AnalysisError('_check_cons: no comparison of the component with an option recognised')
+            r3 = explore(cc, holds(False), start=ibody0[0], stop={O.id, I.id})
+            if I.id not in r3 and not any(n.kind == 'raise' for n in cc.cfg.nodes if n.id in r3):
+                probs.append(('the option loop can stop after an option that did not hold: the remaining options are never tried', I.ast))
+            # an option that does not hold never ends the option loop early (break / return True)
+            after_break = {n.id for n in cc.cfg.nodes if n.kind == 'stmt' and isinstance(n.ast, ast.Break)}
+            if after_break & r3:
+                probs.append(('the option loop can stop after an option that did not hold: the remaining options are never tried', I.ast))
         if probs:
             for (what, construct) in probs:
                 R.fail(oids['LOP.1'], inst, cc.qual, construct if not isinstance(construct, FuncT) else 'def _check_cons', what, site(cc, construct))
